@@ -16,8 +16,9 @@ LEVEL = 'model_checking'
 
 
 def exact(shape, cards) -> bool:
+    from .common import result_twice
     m = R.build(shape, cards)
-    est = FMEstimatedConfigurationsNumber().execute(m).get_result()
+    est = result_twice(FMEstimatedConfigurationsNumber(), m)
     if est != count_configurations(m) or est != count_configurations_rec(m.root):
         return False
     ref = R.ref_count(shape, cards)
